@@ -404,13 +404,14 @@ def finish(ctx):
         "%s tier=%s seed=%d: evaluations=%d distinct_nontrivial=%d states=%d transitions=%d traces=%d rejections=%d outcomes=%d exhaustive=%s wall=%.1fs"
         % (ctx.prop_id, ctx.tier, ctx.seed, ctx.evaluations, len(ctx.nontrivial_keys), ctx.states, ctx.transitions, ctx.traces, sum(ctx.rejections.values()), len(ctx.outcomes), ctx.exhaustive, ctx.elapsed())
     )
-    if nondet:
-        for rec, fps in nondet:
-            print("HARNESS-NONDETERMINISM property=%s sig=%s replays=%s" % (ctx.prop_id, sig_key(rec["sig"]), fps))
-        return 2
+    rc = 0
     if reported:
         for rec, n, path in reported:
             print("  violation x%d: %s :: %s" % (n, sig_key(rec["sig"]), rec["msg"][:300]))
             print("VIOLATION property=%s replay=%s" % (ctx.prop_id, path))
-        return 1
-    return 0
+        rc = 1
+    if nondet:
+        for rec, fps in nondet:
+            print("HARNESS-NONDETERMINISM property=%s sig=%s msg=%s replays=%s" % (ctx.prop_id, sig_key(rec["sig"]), rec["msg"][:200], fps))
+        rc = rc or 2
+    return rc
